@@ -314,7 +314,7 @@ def run(ctx):
     ctx.assumptions += ['the read-only probes (cost values, summary, export, output) are taken on deep copies of the live object; the histories themselves never run on a copy',
                         'tensors are compared bitwise through sha1 prefixes (48 bit); the RNG position is torch.random.get_rng_state() of the CPU generator']
 
-    if not ctx.violations and not ctx.known_printed:
+    if not ctx.violations:   # a printed KNOWN-FINDING must not hide a broken proof / model / correspondence
         if not built:
             ctx.violation('proof-broken', {'theorems': [o[0] for o in ctx.obligations if not o[1]], 'log': getattr(ctx, 'broken_log', '')[-3000:]}, 'Props/C18.v no longer checks', no_input=True)
         elif not model_ok:
